@@ -537,7 +537,7 @@ class Installer:
                 if filepart in exclude_files:
                     continue
                 abs_dst = os.path.join(dst_dir, filepart)
-                if os.path.isdir(abs_dst):
+                if os.path.isdir(abs_dst) and not os.path.islink(abs_dst):
                     print(f'Tried to copy file {abs_dst} but a directory of that name already exists.')
                     sys.exit(1)
                 parent_dir = os.path.dirname(abs_dst)
